@@ -17,7 +17,7 @@ from mc.common import FAMILIES, grid_rects, xinter, xarea, xinside, center_shape
 ID = 'C01'
 LEVEL = 'exploration'
 RULE = ("die of WxH grid cells; region alphabet = all index rectangles inside the die + rectangles crossing or lying beyond the east/north border; "
-        "all sets of <=3 regions x kind vectors over {blockage '#', specialised 'dsp'/'bram', fixed (through a netlist)}; families INT, HALF, DEC1, DEC3, DEC7, large dies (1e5, 1e6, 1e7 units with 0.1-step coordinates) and a near-miss family with 1e-6 steps (tiny overlaps / gaps / overhangs) "
+        "all sets of <=3 regions x kind vectors over {blockage '#', specialised 'dsp'/'bram', fixed (through a netlist)}; families INT, HALF, DEC1, DEC3, DEC7, large dies (1e5, 1e6, 1e7 units with 0.1-step coordinates) a near-miss family with 1e-6 steps (tiny overlaps / gaps / overhangs) and a 1e6-unit die with 4-unit steps; netlists with a movable hard macro assigned through the API; every verdict asked twice "
         "(decimal steps not representable in binary). Non-trivial = valid descriptions with >=1 region (the tiling oracle runs) plus invalid ones that "
         "overlap or leave the die by one grid step (the rejection oracle runs); empty dies are trivial. Distinct by construction.")
 ASSUMPTIONS = ["'valid' is decided on the intended decimal coordinates (exact rationals); every invalid description is invalid by at least one grid step",
